@@ -1,5 +1,5 @@
 """C19 - directory and pack discovery finds exactly the right simfiles (structural clauses)."""
-from ..rules import dirs, fwd
+from ..rules import dirs, fwd, baseline
 
 EXPLANATION = (
     "Static rule checking: R-FWD every function with **kwargs documented as passed down forwards it (or rejects it), filesystem and "
@@ -26,8 +26,12 @@ def c5(ctx):
     dirs.pack_rules(ctx)
 
 
+def c_api(ctx):
+    baseline.surface(ctx, "C19: documented surface", modules=['simfile.dir', 'simfile._private.extensions'], functions=['simfile:opendir', 'simfile:openpack'])
+
 CLAUSES = [
     ("C19.1", "loader options pass through (R-FWD)", c1),
     ("C19.2-4,6", "extension dispatch, duplicate handling, SSC preferred, FileNotFoundError guard", c2),
     ("C19.5", "pack listing", c5),
+    ("C19.api", "public surface: signatures and defaults, constants, enumerations, blank templates, base classes as confirmed (R-API)", c_api),
 ]
